@@ -68,6 +68,9 @@ def classes_of_text(t):
     for ch in t:
         if ch == "\n":
             out.append("L")
+        elif ch == ",":
+            out.append(",")      # array separator outside literals; the
+                                 # spec reads it as "g" inside a literal
         elif ord(ch) < 32:
             out.append("U")
         else:
@@ -175,45 +178,59 @@ class Comp:
 FLAT = 10 ** 6          # "unlimited" line length: no folding
 
 
+def lit_elems(values):
+    """[(classes or None)] -> the `elems` / `got` form of spec/MofText.tla"""
+    return [{"isnull": v is None, "s": [] if v is None else list(v)}
+            for v in values]
+
+
+def got_elems(value):
+    """compiled string/char16 value -> (gotok, got)"""
+    vals = value if isinstance(value, list) else [value]
+    if not all(v is None or isinstance(v, str) for v in vals):
+        return False, []
+    return True, lit_elems([None if v is None else classes_of_source(v)
+                            for v in vals])
+
+
 def run_fold(spec, comp):
     rng = random.Random(spec["cseed"])
     src = concretise_str(spec["s"], rng)
     ev = dict(op="fold", s=list(spec["s"]), indent=spec["indent"],
               maxline=spec["maxline"], lp=spec["lp"], endsp=spec["endsp"],
               avoid=bool(spec["avoid"]), srctok=hextok("str", src))
+    lit = {"has": True, "q": "Q", "elems": lit_elems([spec["s"]]),
+           "out": ["U"], "flat": ["U"], "gotok": False, "got": []}
+    ev["lit"] = lit
     info = dict(source=src)
     try:
         text, olp = _cim_obj.mofstr(src, spec["indent"], spec["maxline"],
                                     spec["lp"], spec["endsp"],
                                     bool(spec["avoid"]))
     except Exception as exc:  # noqa
-        ev.update(out=["U"], flat=["U"], olp=-1, accepted=False, got=["U"],
+        ev.update(out=["U"], olp=-1, accepted=False,
                   gottok="UNCLASSIFIED:mofstr raised %s" % type(exc).__name__)
         info.update(text=None, error="mofstr: %r" % (exc,))
         return ev, info
-    ev["out"] = classes_of_text(text)
+    ev["out"] = lit["out"] = classes_of_text(text)
     ev["olp"] = olp
     info["text"] = text
     try:
         flat = _cim_obj.mofstr(src, spec["indent"], FLAT, spec["lp"],
                                spec["endsp"], bool(spec["avoid"]))[0]
-        ev["flat"] = classes_of_text(flat)
+        lit["flat"] = classes_of_text(flat)
     except Exception:  # noqa
-        ev["flat"] = ["U"]
+        pass
     mof = "Qualifier VQ : string = %s,\n    Scope(any);\n" % text
     ok, ns, conn, err = comp.compile(mof)
     ev["accepted"] = ok
     if ok:
         val = conn.qualifiers[ns]["VQ"].value
-        if isinstance(val, str):
-            ev["got"] = classes_of_source(val)
-            ev["gottok"] = hextok("str", val)
-        else:
-            ev["got"] = ["U"]
-            ev["gottok"] = "UNCLASSIFIED:%r" % (val,)
+        lit["gotok"], lit["got"] = got_elems(val)
+        ev["gottok"] = (hextok("str", val) if isinstance(val, str)
+                        else "UNCLASSIFIED:%r" % (val,))
         info["compiled"] = val
     else:
-        ev["got"] = []
         ev["gottok"] = ""
         info["error"] = err
     return ev, info
@@ -754,37 +771,44 @@ def elems_of(obj, declflv):
 # running one object spec
 # ----------------------------------------------------------------------------
 
-NO_LIT = {"has": False, "s": [], "out": [], "flat": [], "got": []}
+NO_LIT = {"has": False, "q": "Q", "elems": [], "out": [], "flat": [],
+          "gotok": False, "got": []}
 
 
-def _region(text, q):
+def _region(text, q, is_array):
+    """the part of the MOF text that holds the literal(s) of the one string
+    value: first to last quote; for an array from its opening brace, so that
+    leading NULL entries keep their commas"""
     i, j = text.find(q), text.rfind(q)
-    return classes_of_text(text[i:j + 1]) if i >= 0 else []
+    if i < 0:
+        return classes_of_text(text) if is_array else []
+    if is_array:
+        i = text.rfind("{", 0, i) + 1
+    return classes_of_text(text[i:j + 1])
 
 
 def single_literal(spec):
-    """For a unit object whose only string-typed / char16 content is ONE scalar
-    value: (abstract classes, quote char); else None."""
+    """If the object holds exactly ONE non-NULL string / char16 typed value
+    made of plain strings (scalar or array) and no other quoted text:
+    (type, [classes or None per element], is_array); else None."""
     found = []
 
     def visit(v, typ):
         if v is None:
             return
-        if isinstance(v, list):
-            for x in v:
-                found.append(("multi", None))
-                visit(x, typ)
-            return
-        if "s" in v:
-            found.append((typ, v["s"]))
-        elif "d" in v or "ref" in v or "inst" in v:
-            found.append(("other", None))
+        vals = v if isinstance(v, list) else [v]
+        if any(x is not None and ("d" in x or "ref" in x or "inst" in x)
+               for x in vals):
+            found.append(("other", None, False))
+        elif typ in ("string", "char16"):
+            found.append((typ, [None if x is None else x["s"] for x in vals],
+                          isinstance(v, list)))
 
     def quals(qs):
         for q in qs:
             visit(q["val"], q["type"])
             if q["decl"].get("dflt"):
-                found.append(("other", None))
+                found.append(("other", None, False))
 
     k = spec["k"]
     if k == "class":
@@ -802,7 +826,7 @@ def single_literal(spec):
     else:
         visit(spec["val"], spec["type"])
     if len(found) == 1 and found[0][0] in ("string", "char16"):
-        return found[0][1], ('"' if found[0][0] == "string" else "'")
+        return found[0]
     return None
 
 
@@ -818,7 +842,8 @@ def _find_compiled(conn, ns, orig):
 
 
 def _literal_value(obj):
-    """the single string/char16 value of a compiled unit object"""
+    """the single non-NULL string/char16 typed value of a compiled object:
+    (found, value)"""
     vals = []
 
     def add(v, typ):
@@ -843,9 +868,9 @@ def _literal_value(obj):
             add(p.value, p.type)
     elif isinstance(obj, CIMQualifierDeclaration):
         add(obj.value, obj.type)
-    if len(vals) == 1 and isinstance(vals[0], str):
-        return vals[0]
-    return None
+    if len(vals) == 1:
+        return True, vals[0]
+    return False, None
 
 
 def run_obj(spec, comp):
@@ -866,13 +891,16 @@ def run_obj(spec, comp):
         return ev, info
     info["text"] = text
     lit = single_literal(spec)
-    if lit is not None:
+    if lit is not None and any(x is not None for x in lit[1]):
+        q = '"' if lit[0] == "string" else "'"
         try:
-            flat = _region(orig.tomof(FLAT), lit[1])
+            flat = _region(orig.tomof(FLAT), q, lit[2])
         except Exception:  # noqa
             flat = ["U"]
-        ev["lit"] = {"has": True, "s": list(lit[0]),
-                     "out": _region(text, lit[1]), "flat": flat, "got": []}
+        ev["lit"] = {"has": True, "q": "Q" if q == '"' else "A",
+                     "elems": lit_elems(lit[1]),
+                     "out": _region(text, q, lit[2]), "flat": flat,
+                     "gotok": False, "got": []}
     ok, ns, conn, err = comp.compile(text, list(b.qdecls.values()), b.classes)
     ev["accepted"] = ok
     if not ok:
@@ -882,8 +910,9 @@ def run_obj(spec, comp):
     info["compiled"] = repr(cobj)[:1500]
     ev["comp"] = elems_of(cobj, declflv)
     if ev["lit"]["has"]:
-        v = _literal_value(cobj)
-        ev["lit"]["got"] = classes_of_source(v) if v is not None else ["U"]
+        found, v = _literal_value(cobj)
+        if found:
+            ev["lit"]["gotok"], ev["lit"]["got"] = got_elems(v)
     return ev, info
 
 
